@@ -41,6 +41,78 @@ def _run(facts, value):
     return r, env.literals
 
 
+class _ConcreteEnv:
+    def call(self, vm, name, callee, resolved, args, t):
+        if name == 'WordSplitter::new':
+            return Enum('core::result::Result', 'Ok', [Struct('WordSplitter', {})])
+        return NotImplemented
+
+
+def iso_probes(facts):
+    """Concrete strings for the bounded form of C-ISO: every string literal of the crate root (the code table, wherever the lookup
+    keeps it), every string of at most two lower-case letters, and the usual near-misses of each code."""
+    import re
+    import string
+    lits = set()
+    for path, m in facts.mir.items():
+        if path.split('::')[0] in ('lang', 'digit_string', 'tokenizer', 'word_to_digit', 'error') or path.startswith('<'):
+            continue
+        for mm in re.finditer(r'"s": "(?:const )?\\"((?:[^"\\]|\\\\.)*?)\\""', __import__('json').dumps(m)):
+            if len(mm.group(1)) <= 12:
+                lits.add(mm.group(1))
+    probes = set(lits) | {''} | set(string.ascii_lowercase) | {a + b for a in string.ascii_lowercase for b in string.ascii_lowercase}
+    for c in list(ISO) + list(ISO_ALIASES):
+        probes |= {c.upper(), c.capitalize(), ' ' + c, c + ' ', c + '\n', c + '-' + c.upper(), c + '_' + c.upper(), c + 'x', 'x' + c, c + c, c[:1], c[::-1]}
+    probes |= {'english', 'french', 'deutsch', 'german', 'español', '0', '42', '12', 'e1', 'xx', 'zz', 'zzz', 'aaa', 'qwertyuiopasdfghjklzxcvbnm' * 3, 'é', 'ß', '\x00'}
+    return sorted(probes), sorted(lits)
+
+
+def iso_table(ctx):
+    """{probe: ('ok', result) | ('panic'|'unsupported', text)} of get_interpreter_for on concrete strings."""
+    def mk():
+        f = ctx.facts
+        probes, lits = iso_probes(f)
+        out = {}
+        for c in probes:
+            vm = VM(f, _ConcreteEnv())
+            try:
+                out[c] = ('ok', vm.run('get_interpreter_for', [c]))
+            except Panic as e:
+                out[c] = ('panic', str(e))
+            except Unsupported as e:
+                out[c] = ('unsupported', str(e))
+        return out, lits
+    return ctx.memo(('iso-table',), mk)
+
+
+def _iso_bounded(ctx, rep, R, why):
+    tb, lits = iso_table(ctx)
+    bad = sorted(c for c, r in tb.items() if r[0] == 'unsupported')
+    if bad:
+        rep.anchor(R, 'machine', 'cannot interpret get_interpreter_for: %s; nor on concrete strings: %r: %s' % (why, bad[0], tb[bad[0]][1]))
+        return
+    n = 0
+    for code, (k, r) in sorted(tb.items()):
+        n += 1
+        if k == 'panic':
+            rep.violation(R, 'panic|' + code, 'get_interpreter_for(%r) panics: %s' % (code, r))
+            continue
+        got = vm_variant(r.payload[0]) if isinstance(r, Enum) and r.variant == 'Some' else None
+        if code in ISO:
+            want = CTOR_OF_LANG[ISO[code]]
+            rep.check(got == (want, want), R, code, 'BOUNDED: "%s" => Some(Language::%s(%s))' % (code, want, want),
+                      'get_interpreter_for("%s") is %s, expected Some(Language::%s(%s::default()))' % (code, 'None' if got is None else 'Language::%s(%s)' % got, want, want))
+        elif got is None:
+            continue
+        elif ISO_ALIASES.get(code) and got == (CTOR_OF_LANG[ISO_ALIASES[code]],) * 2:
+            rep.info(R, 'alias|' + code, 'ISO 639-2 alias of the same language')
+        else:
+            rep.violation(R, 'extra|' + code, '%r is not an ISO 639-1 code of a built-in language but resolves to Language::%s' % (code, got[0]))
+    rep.ok(R, 'default', 'BOUNDED: the lookup does more than compare the code with literals (%s); interpreted on %d concrete strings (all strings of '
+                         'at most two lower-case letters, the %d string literals of the crate root, case / whitespace / region / prefix variants of '
+                         'each code, digits, gibberish): only the seven codes resolve' % (why, n, len(lits)))
+
+
 def rule_iso_vm(ctx, rep):
     R = 'C-ISO'
     rep.rule(R, 'get_interpreter_for interpreted with a symbolic code that can only be compared with literals: the complete case table (every '
@@ -52,8 +124,10 @@ def rule_iso_vm(ctx, rep):
         return
     try:
         r, lits = _run(f, '\x00 no language code \x00')
+        for code in sorted(set(lits) | set(ISO)):
+            _run(f, code)
     except (Unsupported, Panic) as e:
-        rep.anchor(R, 'machine', 'cannot interpret get_interpreter_for: %s' % e)
+        _iso_bounded(ctx, rep, R, str(e))
         return
     rep.check(isinstance(r, Enum) and r.variant == 'None', R, 'default', 'a string equal to none of the literals gives None',
               'a string that is no language code resolves to %r' % (r,))
